@@ -126,6 +126,9 @@ type bytecodeScope struct {
 	localTable bytecodeLocalTable
 	label      string
 	typ        bytecodeScopeType
+	// lowest index of a local captured by a closure in the scopes
+	// nested in this one that have already been left, -1 when there is none
+	lowestNestedUpvalueLocal int
 }
 
 func (s *bytecodeScope) deepClone() *bytecodeScope {
@@ -134,18 +137,36 @@ func (s *bytecodeScope) deepClone() *bytecodeScope {
 		newLocalTable[key] = val.clone()
 	}
 	return &bytecodeScope{
-		localTable: newLocalTable,
-		label:      s.label,
-		typ:        s.typ,
+		localTable:               newLocalTable,
+		label:                    s.label,
+		typ:                      s.typ,
+		lowestNestedUpvalueLocal: s.lowestNestedUpvalueLocal,
 	}
 }
 
 func newBytecodeScope(label string, typ bytecodeScopeType) *bytecodeScope {
 	return &bytecodeScope{
-		localTable: bytecodeLocalTable{},
-		label:      label,
-		typ:        typ,
+		localTable:               bytecodeLocalTable{},
+		label:                    label,
+		typ:                      typ,
+		lowestNestedUpvalueLocal: -1,
 	}
+}
+
+// Lowest index of a local captured by a closure in this scope
+// and in the scopes that were nested in it, -1 when there is none.
+func (s *bytecodeScope) lowestUpvalueLocal() int {
+	lowestIndex := s.lowestNestedUpvalueLocal
+	for _, local := range s.localTable {
+		if !local.hasUpvalue {
+			continue
+		}
+
+		if lowestIndex == -1 || int(local.index) < lowestIndex {
+			lowestIndex = int(local.index)
+		}
+	}
+	return lowestIndex
 }
 
 // indices represent scope depths
@@ -1867,6 +1888,10 @@ func (c *BytecodeCompiler) compileDo(body func(), catches []*ast.CatchNode, fina
 
 	c.enterScope("", scopeType)
 	body()
+	// a throw, `break` or `continue` leaves the body without executing
+	// the instructions that close the upvalues of its scopes,
+	// the handlers reuse the slots of its locals
+	bodyUpvalueLocal := c.scopes.last().lowestUpvalueLocal()
 	c.leaveScope(location.EndPos.Line)
 
 	doEndOffset := c.nextInstructionOffset()
@@ -1888,6 +1913,9 @@ func (c *BytecodeCompiler) compileDo(body func(), catches []*ast.CatchNode, fina
 	catchStartOffset := c.nextInstructionOffset()
 
 	c.registerCatch(doStartOffset, doEndOffset, catchStartOffset, false)
+	if bodyUpvalueLocal != -1 {
+		c.emitCloseUpvalues(location.StartPos.Line, uint16(bodyUpvalueLocal))
+	}
 
 	c.enterScope("", defaultBytecodeScopeType)
 
@@ -1958,6 +1986,9 @@ func (c *BytecodeCompiler) compileDo(body func(), catches []*ast.CatchNode, fina
 		c.patchJump(jumpOverBreakOrContinueEntryOffset, location)
 		c.patchJump(jumpOverReturnBreakOrContinueEntryOffset, location)
 
+		if bodyUpvalueLocal != -1 {
+			c.emitCloseUpvalues(location.EndPos.Line, uint16(bodyUpvalueLocal))
+		}
 		finally(false)
 
 		c.emit(location.EndPos.Line, bytecode.SWAP)
@@ -9438,6 +9469,13 @@ func (c *BytecodeCompiler) leaveScope(line int) {
 	c.leaveScopeWithoutMutating(line)
 
 	currentDepth := len(c.scopes) - 1
+	if currentDepth > 0 {
+		parent := c.scopes[currentDepth-1]
+		lowest := c.scopes[currentDepth].lowestUpvalueLocal()
+		if lowest != -1 && (parent.lowestNestedUpvalueLocal == -1 || lowest < parent.lowestNestedUpvalueLocal) {
+			parent.lowestNestedUpvalueLocal = lowest
+		}
+	}
 	varsToPop := len(c.scopes[currentDepth].localTable)
 	c.lastLocalIndex -= varsToPop
 	c.scopes[currentDepth] = nil
